@@ -32,6 +32,9 @@ class ThreadSim:
                  on_switch=None, atomic=None, hot: tuple[str, ...] = (), hot_weight: int = 10) -> None:
         self.hot = hot                 # file-name suffixes where simulated time runs faster, so that
         self.hot_weight = hot_weight   # switches concentrate in code that handles shared state
+        self.hot_p = 0.12              # ... and where any line may be a switch point outright
+        import random as _random
+        self.rng_hot = _random.Random(rng.random())   # own stream: replayed decisions keep it aligned
         self.on_switch = on_switch     # called by the baton holder at every scheduling decision
         self.atomic = atomic           # () -> bool: harness code that must not be pre-empted is running
         self.names: list[str] = []
@@ -43,6 +46,7 @@ class ThreadSim:
         self.done: list[bool] = []
         self.budget: list[int] = []
         self.abort = False
+        self.capped = False
         self.switches = 0
         self.preemptions = 0
         self.lock_yields = 0
@@ -90,15 +94,16 @@ class ThreadSim:
                 self.cv.notify_all()
             return
         self.switches += 1
-        if self.switches > MAX_SWITCHES:
-            self.abort = True
-            with self.cv:
-                self.cv.notify_all()
+        if self.switches > MAX_SWITCHES and not finished:
+            # enough pre-emption for one batch: from here on threads run until they finish or
+            # meet a taken lock (still a legal schedule, so the results are judged as usual)
+            self.budget[i] = 1 << 60
+            self.capped = True
             return
         if self.on_switch is not None and LOCKS_HELD[0] == 0:
             self.on_switch()
         j, q = self._decide(cands)
-        self.budget[j] = q
+        self.budget[j] = q if not self.capped else 1 << 60
         if j == i:
             return
         self.preemptions += 0 if finished else 1
@@ -119,11 +124,11 @@ class ThreadSim:
             self.abort = True     # everybody else is finished and the lock is still held: deadlock
             return
         self.switches += 1
-        if self.switches > MAX_SWITCHES:
-            self.abort = True
+        if self.switches > MAX_SWITCHES * 5:
+            self.abort = True     # threads keep finding the lock taken: livelock
             return
         j, q = self._decide(cands)
-        self.budget[j] = q
+        self.budget[j] = q if not self.capped else 1 << 60
         with self.cv:
             self.current = j
             self.cv.notify_all()
@@ -137,7 +142,12 @@ class ThreadSim:
         def local(frame, event, arg):
             if event == "line":
                 self.line_events += 1
-                self.budget[i] -= hw if (hot and frame.f_code.co_filename.endswith(hot)) else 1
+                if hot and frame.f_code.co_filename.endswith(hot):
+                    self.budget[i] -= hw
+                    if self.rng_hot.random() < self.hot_p:
+                        self.budget[i] = 0
+                else:
+                    self.budget[i] -= 1
                 if self.budget[i] <= 0 and not self.abort and not (self.atomic is not None and self.atomic()):
                     self._hand_over(i)
             return local
